@@ -6,7 +6,8 @@
    inside a transaction. *)
 From Coq Require Import ZArith List Bool.
 From Model Require Import PyBase Cache.
-From Proofs Require Import CacheProofs CacheWf CacheCopy CacheCoh CacheWorld CacheUnion CacheTheorems CacheUsable CacheExamples CacheTxn CacheFresh CacheFreshOps CacheFreshWorld CacheFreshUnion CacheFreshSplit CacheInj CacheInjOps CacheInjWorld CacheFreshPatch CacheFreshFull CacheStereo CacheTie CacheUsable2 CacheCopyTotal CacheUsable3 CacheUsable4.
+From Proofs Require Import CacheProofs CacheWf CacheCopy CacheCoh CacheWorld CacheUnion CacheTheorems CacheUsable CacheExamples CacheTxn CacheFresh CacheFreshOps CacheFreshWorld CacheFreshUnion CacheFreshSplit CacheInj CacheInjOps CacheInjWorld CacheFreshPatch CacheFreshFull CacheStereo CacheTie CacheUsable2 CacheCopyTotal CacheUsable3 CacheUsable4 CacheOpsTie CacheOpsTie2 CacheOpsTie3 CacheOpsTie4 CacheOpsTie5 CacheTotal CacheTotal2 CacheTotal3 CacheFuel CacheFreshSplit.
+From Gen Require Import CacheOps.
 Import ListNotations.
 Open Scope Z_scope.
 
@@ -288,3 +289,244 @@ Theorem C13_substructure_total : forall s ats, W s -> ats <> [] -> (forall x, In
   snd (step s (OSub ats)) = None /\ snd (step s (OAnd ats)) = None /\ snd (step s (OSubH ats)) = None.
 Proof. exact sub_editable. Qed.
 Print Assumptions C13_substructure_total.
+
+(* ---- TIE BY TRANSLATION.  Gen.CacheOps is regenerated on every run by tools/gen_cacheops.py from the BODIES of
+   MoleculeContainer.fix_structure / add_atom / add_bond / delete_atom / delete_bond / __enter__ / __exit__ (Graph.add_atom and
+   Graph.add_bond inlined where super() is called), statement by statement.  The generated actions are equal to the hand-written ones of
+   Model.Cache, for every heap and molecule (_skip_calculation at its default False; add_atom / delete_atom: for molecules whose
+   _atoms and _bonds have the same keys - otherwise the real delete_atom has already removed the atom when _bonds.pop(n) raises, and
+   the real add_atom overwrites a stale row) *)
+Theorem C13_translated_fix_structure : forall h o,
+  gen_fix_structure true h o = fix_structure h o /\
+  gen_fix_structure false h o = (calc_labels ;; (fun h o => ok h (set_changed o None))) h o.
+Proof. intros h o. split; [apply gen_fix_structure_true | apply gen_fix_structure_false]. Qed.
+Print Assumptions C13_translated_fix_structure.
+
+Theorem C13_translated_add_bond : forall n m ord h o, gen_add_bond false n m ord h o = add_bond n m ord h o.
+Proof. exact gen_add_bond_eq. Qed.
+Print Assumptions C13_translated_add_bond.
+
+Theorem C13_translated_delete_bond : forall n m h o, gen_delete_bond false n m h o = delete_bond n m h o.
+Proof. exact gen_delete_bond_eq. Qed.
+Print Assumptions C13_translated_delete_bond.
+
+Theorem C13_translated_add_atom : forall c n h o,
+  keys (o_adj o) = keys (o_atoms o) -> gen_add_atom false c n h o = add_atom c n h o.
+Proof. exact gen_add_atom_eq. Qed.
+Print Assumptions C13_translated_add_atom.
+
+Theorem C13_translated_delete_atom : forall n h o,
+  zmem n (keys (o_atoms o)) = zmem n (keys (o_adj o)) -> gen_delete_atom false n h o = delete_atom n h o.
+Proof. exact gen_delete_atom_eq. Qed.
+Print Assumptions C13_translated_delete_atom.
+
+Theorem C13_translated_enter_exit : forall h o,
+  gen_enter h o = enter h o /\ gen_exit false h o = exit_ok h o /\ gen_exit true h o = exit_exn h o.
+Proof. intros h o. repeat split; [apply gen_enter_eq | apply gen_exit_ok_eq | apply gen_exit_exn_eq]. Qed.
+Print Assumptions C13_translated_enter_exit.
+
+(* hence: in every state satisfying W, a step of the state machine all theorems above quantify over IS the generated action *)
+Theorem C13_step_runs_translated_source : forall s, W s ->
+  (forall c n, step s (OAddAtom c n) = lift (gen_add_atom false c n) s) /\
+  (forall n m ord, step s (OAddBond n m ord) = lift (gen_add_bond false n m ord) s) /\
+  (forall n, step s (ODelAtom n) = lift (gen_delete_atom false n) s) /\
+  (forall n m, step s (ODelBond n m) = lift (gen_delete_bond false n m) s) /\
+  step s OEnter = lift gen_enter s /\
+  step s OExitOk = lift (gen_exit false) s /\
+  step s OExitExn = lift (gen_exit true) s.
+Proof. exact step_runs_translated_source. Qed.
+Print Assumptions C13_step_runs_translated_source.
+
+(* non-vacuity: on a loaded C-C-O the generated add_atom / delete_atom run (hypotheses hold) and do what the hand-written ones do *)
+Theorem C13_translated_example :
+  let s := init [(1, mkCore 6 None 0 false); (2, mkCore 6 None 0 false); (3, mkCore 8 None 0 false)]
+                [(1, [(2, 1)]); (2, [(1, 1); (3, 1)]); (3, [(2, 1)])] [] [] in
+  keys (o_adj (s_cur s)) = keys (o_atoms (s_cur s)) /\
+  gen_add_atom false (mkCore 7 None 0 false) None (s_heap s) (s_cur s) = add_atom (mkCore 7 None 0 false) None (s_heap s) (s_cur s) /\
+  snd (gen_delete_atom false 2 (s_heap s) (s_cur s)) = None /\
+  keys (o_atoms (snd (fst (gen_delete_atom false 2 (s_heap s) (s_cur s))))) = [1; 3].
+Proof. exact gen_ops_example. Qed.
+Print Assumptions C13_translated_example.
+
+(* the loops of Graph.copy / MoleculeContainer.substructure that build the adjacency of the new molecule (back-connection test `m in cb`,
+   which Bond.copy flavour, the `elif m in atoms` cut), translated from the source, equal the hand-written gcopy_rows that copy(),
+   the transaction backup, union, substructure, __and__, __sub__, augmented_substructure and split go through - for every adjacency
+   whose rows are dicts (no neighbour twice in a row), in particular in every state satisfying W *)
+Theorem C13_translated_copy_loops : forall h o, rows_are_dicts (o_adj o) ->
+  gen_copy_bonds h o = copy_rows h [] (o_adj o) /\ forall sel, gen_sub_bonds sel h o = sub_rows h o sel.
+Proof. intros h o Hd. split; [apply gen_copy_bonds_eq; exact Hd | intros sel; apply gen_sub_bonds_eq; exact Hd]. Qed.
+Print Assumptions C13_translated_copy_loops.
+
+Theorem C13_translated_copy_loops_W : forall s, W s ->
+  gen_copy_bonds (s_heap s) (s_cur s) = copy_rows (s_heap s) [] (o_adj (s_cur s)) /\
+  forall sel, gen_sub_bonds sel (s_heap s) (s_cur s) = sub_rows (s_heap s) (s_cur s) sel.
+Proof. exact copy_loops_translated_W. Qed.
+Print Assumptions C13_translated_copy_loops_W.
+
+(* non-vacuity: the translated copy loop on a loaded C-C-O makes ONE new object per bond, held by both rows, none shared with the source *)
+Theorem C13_translated_copy_loops_example :
+  let s := init [(1, mkCore 6 None 0 false); (2, mkCore 6 None 0 false); (3, mkCore 8 None 0 false)]
+                [(1, [(2, 1)]); (2, [(1, 1); (3, 1)]); (3, [(2, 1)])] [] [] in
+  rows_are_dicts (o_adj (s_cur s)) /\
+  match gen_copy_bonds (s_heap s) (s_cur s) with
+  | Ok (h', cb) => canon (refs_of_adj cb) = [0; 0; 1; 1] /\ keys cb = [1; 2; 3] /\
+                   forallb (fun r => negb (zmem r (refs_of_adj (o_adj (s_cur s))))) (refs_of_adj cb) = true
+  | Err _ => False
+  end /\
+  match gen_sub_bonds [2; 3] (s_heap s) (s_cur s) with
+  | Ok (h', sb) => canon (refs_of_adj sb) = [0; 0] /\ map (fun nr => (fst nr, keys (snd nr))) sb = [(2, [3]); (3, [2])]
+  | Err _ => False
+  end.
+Proof. exact gen_copy_loops_example. Qed.
+Print Assumptions C13_translated_copy_loops_example.
+
+(* ---- totality of remap / split / union for valid arguments (formerly compared and searched only) ---- *)
+(* remap raises ValueError exactly when the mapping overlaps (two atoms mapped to one number, or a number of an atom that is not
+   renumbered is used as a target) and nothing otherwise, in every state *)
+Theorem C13_remap_exact : forall mp s,
+  snd (step s (ORemap mp)) = if remap_overlap mp (s_cur s) then Some ValueError else None.
+Proof. exact remap_exact. Qed.
+Print Assumptions C13_remap_exact.
+
+Theorem C13_remap_total : forall mp s, NoDup (map snd mp) ->
+  (forall n, In n (keys (o_atoms (s_cur s))) -> ~ In n (keys mp) -> ~ In n (map snd mp)) ->
+  snd (step s (ORemap mp)) = None.
+Proof. exact remap_total. Qed.
+Print Assumptions C13_remap_total.
+
+(* split() raises nothing on the current molecule of any state satisfying W (inside a transaction as well) *)
+Theorem C13_split_total : forall s, W s -> snd (step s OSplit) = None.
+Proof. exact split_total. Qed.
+Print Assumptions C13_split_total.
+
+(* union raises nothing when the partner is settled (not inside a transaction), overlapping numbers come with remap=True, and - for
+   copy=True - the current molecule is not inside a transaction (the copy of an intermediate state may lack labels); FW = W + freshness *)
+Theorem C13_union_total : forall rmp cp s other rest, FW s -> s_others s = other :: rest -> o_backup other = None ->
+  (existsb (fun n => zmem n (keys (o_atoms other))) (keys (o_atoms (s_cur s))) = true -> rmp = true) ->
+  (cp = true -> o_backup (s_cur s) = None) ->
+  snd (step s (OUnion rmp cp)) = None.
+Proof. exact union_total. Qed.
+Print Assumptions C13_union_total.
+
+(* non-vacuity: CC.O splits in two; a swap of two atom numbers is fine, mapping 1 onto the unmapped atom 2 is refused; a union under
+   the same numbers is refused without remap and fine with it *)
+Theorem C13_totality_examples :
+  (let s := init [(1, mkCore 6 None 0 false); (2, mkCore 6 None 0 false); (3, mkCore 8 None 0 false)]
+                 [(1, [(2, 1)]); (2, [(1, 1)]); (3, [])] [] [] in
+   map (fun o => keys (o_atoms o)) (s_others (fst (step s OSplit))) = [[3]; [1; 2]; []] /\
+   snd (step s (ORemap [(1, 2); (2, 1)])) = None /\ snd (step s (ORemap [(1, 2)])) = Some ValueError) /\
+  (let s := init [(1, mkCore 6 None 0 false); (2, mkCore 8 None 0 false)] [(1, [(2, 1)]); (2, [(1, 1)])]
+                 [(1, mkCore 7 None 0 false)] [(1, [])] in
+   snd (union false true s) = Some ValueError /\ snd (union true true s) = None /\ snd (union true false s) = None /\
+   keys (o_atoms (s_cur (fst (union true false s)))) = [1; 2; 3]).
+Proof. split; [pose proof total_example as H; cbv zeta in *; tauto | exact union_total_example]. Qed.
+Print Assumptions C13_totality_examples.
+
+(* ---- more bodies translated from the source: remap, substructure as a whole, union ---- *)
+(* Graph.remap + MoleculeContainer.remap (guard, the two dict comprehensions through mapping.get, flush, _changed inside / outside a
+   transaction) on every well-formed molecule; hence in every state satisfying W the step IS the generated action *)
+Theorem C13_translated_remap : forall mp h o, wf h o -> gen_remap mp h o = remap mp h o.
+Proof. exact gen_remap_eq. Qed.
+Print Assumptions C13_translated_remap.
+
+Theorem C13_translated_remap_W : forall s mp, W s -> step s (ORemap mp) = lift (gen_remap mp) s.
+Proof. exact remap_is_translated. Qed.
+Print Assumptions C13_translated_remap_W.
+
+(* MoleculeContainer.substructure as a whole: guards and their exception class, selection in the order of self, the fields of the new
+   object, atom.copy(hydrogens=not recalculate_hydrogens), the translated loops, the final fix_structure(recalculate_hydrogens) /
+   fix_stereo - what substructure, __and__, __sub__, augmented_substructure and split run *)
+Theorem C13_translated_substructure : forall rh ats h o, NoDup (keys (o_atoms o)) -> rows_are_dicts (o_adj o) ->
+  gen_substructure rh ats h o = substructure_g rh ats h o.
+Proof. exact gen_substructure_eq. Qed.
+Print Assumptions C13_translated_substructure.
+
+Theorem C13_translated_substructure_W : forall s ats, W s ->
+  gen_substructure true ats (s_heap s) (s_cur s) = substructure ats (s_heap s) (s_cur s) /\
+  (forall rh, sub_step_g rh ats s = match gen_substructure rh ats (s_heap s) (s_cur s) with
+                                    | Err e => (s, Some e)
+                                    | Ok (h, o, None) => (mkS h (s_cur s) (o :: s_others s), None)
+                                    | Ok (h, _, Some e) => (mkS h (s_cur s) (s_others s), Some e)
+                                    end).
+Proof. exact substructure_is_translated. Qed.
+Print Assumptions C13_translated_substructure_W.
+
+(* Graph.union (collision test, `if not remap: raise`, both copies, the renumbering from max(self) + 1, `self.copy() if copy else
+   self`, the two updates, the flush of the in-place variant) in EVERY state *)
+Theorem C13_translated_union : forall s rmp cp, step s (OUnion rmp cp) = gen_union rmp cp s.
+Proof. exact union_is_translated. Qed.
+Print Assumptions C13_translated_union.
+
+Theorem C13_translated_more_examples :
+  (let s := init [(1, mkCore 6 None 0 false); (2, mkCore 6 None 0 false); (3, mkCore 8 None 0 false)]
+                 [(1, [(2, 1)]); (2, [(1, 1); (3, 1)]); (3, [(2, 1)])] [] [] in
+   keys (o_atoms (snd (fst (gen_remap [(1, 3); (3, 1)] (s_heap s) (s_cur s))))) = [3; 2; 1] /\
+   snd (gen_remap [(1, 3); (3, 1)] (s_heap s) (s_cur s)) = None /\
+   snd (gen_remap [(1, 2)] (s_heap s) (s_cur s)) = Some ValueError) /\
+  (let s := init [(1, mkCore 6 None 0 false); (2, mkCore 6 None 0 false); (3, mkCore 8 None 0 false)]
+                 [(1, [(2, 1)]); (2, [(1, 1); (3, 1)]); (3, [(2, 1)])] [] [] in
+   match gen_substructure true [3; 2] (s_heap s) (s_cur s) with
+   | Ok (_, sub, None) => keys (o_atoms sub) = [2; 3] /\ map (fun nr => (fst nr, keys (snd nr))) (o_adj sub) = [(2, [3]); (3, [2])]
+   | _ => False
+   end /\
+   gen_substructure true [] (s_heap s) (s_cur s) = Err ValueError /\ gen_substructure true [4] (s_heap s) (s_cur s) = Err ValueError).
+Proof. split; [exact gen_remap_example | exact gen_substructure_example]. Qed.
+Print Assumptions C13_translated_more_examples.
+
+(* ---- fuel sufficiency: the out-of-fuel value of the model's two fuelled functions is never returned ---- *)
+(* cached_property lookup through the parent chain: every fuel >= 5 gives the same result, and the key read is in __dict__ afterwards *)
+Theorem C13_read_fuel_sufficient : forall v c k f, (5 <= f)%nat -> read_key f v c k = read_key 5 v c k.
+Proof. intros v c k f. apply read_fuel_sufficient. Qed.
+Print Assumptions C13_read_fuel_sufficient.
+
+Theorem C13_read_stores : forall s k, cget (o_cache (s_cur (fst (step s (ORead k))))) k <> None.
+Proof. exact read_stores. Qed.
+Print Assumptions C13_read_stores.
+
+(* connected components (fuel = number of atoms): every component the model computes is non-empty, within the atoms and closed under
+   adjacency: the iteration reached its fixed point *)
+Theorem C13_components_reach_fixpoint : forall s, W s -> forall c, In c (comps (o_adj (s_cur s))) ->
+  c <> [] /\ incl c (keys (o_atoms (s_cur s))) /\ closed (o_adj (s_cur s)) c.
+Proof. exact components_reach_fixpoint. Qed.
+Print Assumptions C13_components_reach_fixpoint.
+
+(* ---- which exception, exactly: the four mutators in every state satisfying W, inside and outside a transaction (C13_editable gives
+   sufficient conditions only, add_atom only for n=None outside a transaction); the theorem counterpart of the search oracle
+   "exceptions against the documented contract" ---- *)
+Theorem C13_add_atom_exact : forall s c n, W s ->
+  snd (step s (OAddAtom c n)) =
+  match n with Some x => if zmem x (keys (o_atoms (s_cur s))) then Some ValueError else None | None => None end.
+Proof. intros s c n. apply add_atom_exact. Qed.
+Print Assumptions C13_add_atom_exact.
+
+Theorem C13_add_bond_exact : forall s n m ord, W s ->
+  snd (step s (OAddBond n m ord)) =
+  if negb (valid_order ord) then Some ValueError
+  else if n =? m then Some ValueError
+  else if negb (zmem n (keys (o_atoms (s_cur s)))) || negb (zmem m (keys (o_atoms (s_cur s)))) then Some KeyError
+  else if bonded (s_cur s) n m then Some ValueError else None.
+Proof. intros s n m ord. apply add_bond_exact. Qed.
+Print Assumptions C13_add_bond_exact.
+
+Theorem C13_delete_atom_exact : forall s n, W s ->
+  snd (step s (ODelAtom n)) = if zmem n (keys (o_atoms (s_cur s))) then None else Some KeyError.
+Proof. intros s n. apply delete_atom_exact. Qed.
+Print Assumptions C13_delete_atom_exact.
+
+Theorem C13_delete_bond_exact : forall s n m, W s ->
+  snd (step s (ODelBond n m)) = match slot_of (s_cur s) n m with Some _ => None | None => Some KeyError end.
+Proof. intros s n m. apply delete_bond_exact. Qed.
+Print Assumptions C13_delete_bond_exact.
+
+Theorem C13_mutators_exact_example :
+  (let s := init [(1, mkCore 6 None 0 false); (2, mkCore 8 None 0 false); (3, mkCore 6 None 0 false)] [(1, [(2, 1)]); (2, [(1, 1)]); (3, [])] [] [] in
+   map (fun p => snd (step s p)) [OAddBond 1 3 1; OAddBond 1 2 1; OAddBond 1 1 1; OAddBond 1 9 1; OAddBond 1 3 5;
+                                  ODelAtom 3; ODelAtom 9; ODelBond 1 2; ODelBond 1 3]
+   = [None; Some ValueError; Some ValueError; Some KeyError; Some ValueError; None; Some KeyError; None; Some KeyError]) /\
+  (let s := init [(1, mkCore 6 None 0 false); (2, mkCore 8 None 0 false)] [(1, [(2, 1)]); (2, [(1, 1)])] [] [] in
+   snd (step s (OAddAtom (mkCore 7 None 0 false) (Some 2))) = Some ValueError /\
+   snd (step s (OAddAtom (mkCore 7 None 0 false) (Some 7))) = None /\
+   snd (step (fst (step s OEnter)) (OAddAtom (mkCore 7 None 0 false) None)) = None /\
+   o_changed (s_cur (fst (step (fst (step s OEnter)) (OAddAtom (mkCore 7 None 0 false) None)))) = Some [3]).
+Proof. split; [exact mutators_exact_example | exact add_atom_exact_example]. Qed.
+Print Assumptions C13_mutators_exact_example.
